@@ -3,12 +3,19 @@
 package dnsforward
 
 import (
+	"bytes"
+	"context"
 	"crypto/tls"
+	"encoding/binary"
 	"encoding/hex"
 	"fmt"
+	"io"
 	"math/rand/v2"
 	"net"
+	"net/http"
+	"net/http/httptest"
 	"net/netip"
+	"net/url"
 	"strings"
 	"sync"
 	"sync/atomic"
@@ -24,7 +31,9 @@ import (
 	"github.com/AdguardTeam/dnsproxy/upstream"
 	"github.com/AdguardTeam/golibs/logutil/slogutil"
 	"github.com/AdguardTeam/golibs/netutil"
+	"github.com/ameshkov/dnscrypt/v2"
 	"github.com/miekg/dns"
+	"github.com/quic-go/quic-go"
 )
 
 // Socket run of C03: a real dnsforward.Server (UDP, TCP and DoT listeners on
@@ -33,7 +42,7 @@ import (
 // per-request filtering settings hook.  One line is one configuration plus K
 // concurrent requests:
 //
-//	C03.sblock conf-fields… K (proto ipkind addr zone sni hostBlocked qname qtype)*K
+//	C03.sblock conf-fields… K (proto ipkind addr zone sni hostBlocked qname qtype path)*K
 //	   =>  (reply upstream logged counted)*K filtered
 //
 // reply ∈ none | refused | servfail | processed.
@@ -81,7 +90,7 @@ type c03sStats struct {
 	c *c03sCounters
 }
 
-func (s *c03sStats) Update(e *stats.Entry)                                { s.c.inc(s.c.counted, e.Domain) }
+func (s *c03sStats) Update(e *stats.Entry)                             { s.c.inc(s.c.counted, e.Domain) }
 func (s *c03sStats) ShouldCount(string, uint16, uint16, []string) bool { return true }
 
 var (
@@ -90,13 +99,30 @@ var (
 	c03sCert     tls.Certificate
 )
 
-const c03sSrvName = "dns.example.org"
+const (
+	c03sSrvName  = "dns.example.org"
+	c03sProvider = "2.dnscrypt-cert.c03.example"
+)
+
+var (
+	c03sHTTPPort     uint16
+	c03sResolver     dnscrypt.ResolverConfig
+	c03sDNSCryptCert *dnscrypt.Cert
+)
 
 // c03sStart builds and starts a real server with the given access lists.
-func c03sStart(srvName string, strict bool, allowed, blocked, hosts []string) (s *Server, cnt *c03sCounters, err error) {
+func c03sStart(srvName string, strict bool, allowed, blocked, hosts []string) (s *Server, hs *httptest.Server, cnt *c03sCounters, err error) {
 	c03sCertOnce.Do(func() {
 		_, certPem, keyPem := createServerTLSConfig(c03sT)
 		c03sCert, err = tls.X509KeyPair(certPem, keyPem)
+		if err != nil {
+			panic(err)
+		}
+		c03sResolver, err = dnscrypt.GenerateResolverConfig(c03sProvider, nil)
+		if err != nil {
+			panic(err)
+		}
+		c03sDNSCryptCert, err = c03sResolver.CreateCert()
 		if err != nil {
 			panic(err)
 		}
@@ -111,7 +137,7 @@ func c03sStart(srvName string, strict bool, allowed, blocked, hosts []string) (s
 		},
 	}, nil)
 	if err != nil {
-		return nil, nil, err
+		return nil, nil, nil, err
 	}
 	flt.SetEnabled(true)
 
@@ -128,7 +154,7 @@ func c03sStart(srvName string, strict bool, allowed, blocked, hosts []string) (s
 		Stats:       &c03sStats{c: cnt},
 	})
 	if err != nil {
-		return nil, nil, err
+		return nil, nil, nil, err
 	}
 
 	cert := c03sCert
@@ -136,10 +162,17 @@ func c03sStart(srvName string, strict bool, allowed, blocked, hosts []string) (s
 		UDPListenAddrs: []*net.UDPAddr{{}},
 		TCPListenAddrs: []*net.TCPAddr{{}},
 		TLSConf: &TLSConfig{
-			TLSListenAddrs: []*net.TCPAddr{{}},
-			ServerName:     srvName,
-			StrictSNICheck: strict,
-			Cert:           &cert,
+			TLSListenAddrs:  []*net.TCPAddr{{}},
+			QUICListenAddrs: []*net.UDPAddr{{}},
+			ServerName:      srvName,
+			StrictSNICheck:  strict,
+			Cert:            &cert,
+		},
+		DNSCryptConfig: DNSCryptConfig{
+			Enabled:        true,
+			ResolverCert:   c03sDNSCryptCert,
+			ProviderName:   c03sProvider,
+			UDPListenAddrs: []*net.UDPAddr{{}},
 		},
 		Config: Config{
 			AllowedClients:    allowed,
@@ -152,7 +185,7 @@ func c03sStart(srvName string, strict bool, allowed, blocked, hosts []string) (s
 		ServePlainDNS: true,
 	})
 	if err != nil {
-		return nil, nil, err
+		return nil, nil, nil, err
 	}
 
 	s.conf.UpstreamConfig.Upstreams = []upstream.Upstream{&aghtest.UpstreamMock{
@@ -174,19 +207,38 @@ func c03sStart(srvName string, strict bool, allowed, blocked, hosts []string) (s
 
 	err = s.Start()
 	if err != nil {
-		return nil, nil, err
+		return nil, nil, nil, err
 	}
 
-	return s, cnt, nil
+	// DoH reaches the DNS server through AdGuard Home's web server, which hands
+	// /dns-query to Server.ServeHTTP (home/web.go); a TLS web server on all
+	// local addresses, HTTP/1.1 and HTTP/2, stands for it here.
+	hs = httptest.NewUnstartedServer(http.HandlerFunc(s.ServeHTTP))
+	l, err := net.Listen("tcp", ":0")
+	if err != nil {
+		return nil, nil, nil, err
+	}
+	_ = hs.Listener.Close()
+	hs.Listener = l
+	hs.EnableHTTP2 = true
+	hs.TLS = &tls.Config{Certificates: []tls.Certificate{cert}}
+	hs.StartTLS()
+
+	return s, hs, cnt, nil
 }
 
 const (
-	c03sUDPTimeout = 250 * time.Millisecond
+	c03sUDPTimeout = 600 * time.Millisecond
 	c03sTCPTimeout = 2 * time.Second
 )
 
 // c03sQuery sends one real request and classifies what came back.
-func c03sQuery(s *Server, proto string, ip netip.Addr, sni, qname string, qtype uint16) (reply string) {
+func c03sQuery(s *Server, proto string, ip netip.Addr, sni, path, qname string, qtype uint16) (reply string) {
+	switch proto {
+	case "https", "quic", "dnscrypt":
+		return c03sClassify(c03sQueryOther(s, proto, ip, sni, path, qname, qtype))
+	}
+
 	var pp proxy.Proto
 	c := &dns.Client{}
 	d := &net.Dialer{}
@@ -225,6 +277,18 @@ func c03sQuery(s *Server, proto string, ip netip.Addr, sni, qname string, qtype 
 
 		return "err:" + vutil.Hex(err.Error())
 	}
+
+	return c03sClassify(resp, false, nil)
+}
+
+// c03sClassify names what came back.
+func c03sClassify(resp *dns.Msg, silent bool, err error) (reply string) {
+	switch {
+	case silent:
+		return "none"
+	case err != nil:
+		return "err:" + vutil.Hex(err.Error())
+	}
 	switch {
 	case resp.Rcode == dns.RcodeRefused && len(resp.Answer) == 0:
 		return "refused"
@@ -234,6 +298,155 @@ func c03sQuery(s *Server, proto string, ip netip.Addr, sni, qname string, qtype 
 		return "processed"
 	default:
 		return "rcode" + vutil.Itoa(resp.Rcode)
+	}
+}
+
+func c03sDst(ip netip.Addr) netip.Addr {
+	if ip.Is4() && ip.IsLoopback() {
+		return netip.MustParseAddr("127.0.0.1")
+	}
+
+	return ip
+}
+
+// c03sQueryOther sends one request over DoH, DoQ or DNSCrypt from the given
+// source address.  silent = the server let the request time out.
+func c03sQueryOther(
+	s *Server,
+	proto string,
+	ip netip.Addr,
+	sni, path, qname string,
+	qtype uint16,
+) (resp *dns.Msg, silent bool, err error) {
+	req := &dns.Msg{
+		MsgHdr:   dns.MsgHdr{Id: dns.Id(), RecursionDesired: true},
+		Question: []dns.Question{{Name: qname, Qtype: qtype, Qclass: dns.ClassINET}},
+	}
+	ctx, cancel := context.WithTimeout(context.Background(), c03sTCPTimeout)
+	defer cancel()
+
+	switch proto {
+	case "https":
+		port := c03sHTTPPort
+		d := &net.Dialer{LocalAddr: &net.TCPAddr{IP: ip.AsSlice(), Zone: ip.Zone()}}
+		tr := &http.Transport{
+			TLSClientConfig:   &tls.Config{InsecureSkipVerify: true, ServerName: sni},
+			DialContext:       d.DialContext,
+			DisableKeepAlives: true,
+			// HTTP/2 for AAAA questions, HTTP/1.1 for the others
+			ForceAttemptHTTP2: qtype == dns.TypeAAAA,
+		}
+		defer tr.CloseIdleConnections()
+		var body []byte
+		body, err = req.Pack()
+		if err != nil {
+			return nil, false, err
+		}
+		u := &url.URL{Scheme: "https", Host: netip.AddrPortFrom(c03sDst(ip), port).String(), Path: path}
+		var hreq *http.Request
+		hreq, err = http.NewRequestWithContext(ctx, http.MethodPost, u.String(), bytes.NewReader(body))
+		if err != nil {
+			return nil, false, err
+		}
+		hreq.Header.Set("Content-Type", "application/dns-message")
+		hreq.Header.Set("Accept", "application/dns-message")
+		var hresp *http.Response
+		hresp, err = (&http.Client{Transport: tr}).Do(hreq)
+		if err != nil {
+			return nil, false, err
+		}
+		defer func() { _ = hresp.Body.Close() }()
+		var b []byte
+		b, err = io.ReadAll(hresp.Body)
+		if err != nil {
+			return nil, false, err
+		}
+		if hresp.StatusCode != http.StatusOK {
+			return nil, false, fmt.Errorf("http status %d", hresp.StatusCode)
+		}
+		resp = &dns.Msg{}
+
+		return resp, false, resp.Unpack(b)
+	case "quic":
+		port := netutil.NetAddrToAddrPort(s.dnsProxy.Addr(proxy.ProtoQUIC)).Port()
+		var pc *net.UDPConn
+		pc, err = net.ListenUDP("udp", &net.UDPAddr{IP: ip.AsSlice(), Zone: ip.Zone()})
+		if err != nil {
+			return nil, false, err
+		}
+		defer func() { _ = pc.Close() }()
+		dst := net.UDPAddrFromAddrPort(netip.AddrPortFrom(c03sDst(ip), port))
+		var conn quic.Connection
+		conn, err = quic.Dial(ctx, pc, dst, &tls.Config{
+			InsecureSkipVerify: true, ServerName: sni, NextProtos: []string{proxy.NextProtoDQ},
+		}, &quic.Config{})
+		if err != nil {
+			return nil, false, err
+		}
+		defer func() { _ = conn.CloseWithError(0, "") }()
+		var st quic.Stream
+		st, err = conn.OpenStreamSync(ctx)
+		if err != nil {
+			return nil, false, err
+		}
+		req.Id = 0
+		var body []byte
+		body, err = req.Pack()
+		if err != nil {
+			return nil, false, err
+		}
+		buf := make([]byte, 2+len(body))
+		binary.BigEndian.PutUint16(buf, uint16(len(body)))
+		copy(buf[2:], body)
+		if _, err = st.Write(buf); err != nil {
+			return nil, false, err
+		}
+		_ = st.Close()
+		_ = st.SetReadDeadline(time.Now().Add(c03sTCPTimeout))
+		var b []byte
+		b, err = io.ReadAll(st)
+		if len(b) < 2 {
+			if err == nil {
+				err = fmt.Errorf("short doq reply")
+			}
+
+			return nil, false, err
+		}
+		resp = &dns.Msg{}
+
+		return resp, false, resp.Unpack(b[2:])
+	default:
+		// DNSCrypt over UDP: the certificate is fetched first (answered by the
+		// DNSCrypt layer itself), then the encrypted query is sent.
+		port := netutil.NetAddrToAddrPort(s.dnsProxy.Addr(proxy.ProtoDNSCrypt)).Port()
+		dstS := netip.AddrPortFrom(c03sDst(ip), port).String()
+		// (the stamp's type lives in a module go.mod only requires indirectly:
+		// it is never named here)
+		stamp, serr := c03sResolver.CreateStamp(dstS)
+		if serr != nil {
+			return nil, false, serr
+		}
+		cl := &dnscrypt.Client{Net: "udp", Timeout: c03sTCPTimeout}
+		var ri *dnscrypt.ResolverInfo
+		ri, err = cl.DialStamp(stamp)
+		if err != nil {
+			return nil, false, fmt.Errorf("dnscrypt dial: %w", err)
+		}
+		d := &net.Dialer{LocalAddr: &net.UDPAddr{IP: ip.AsSlice(), Zone: ip.Zone()}}
+		var conn net.Conn
+		conn, err = d.DialContext(ctx, "udp", dstS)
+		if err != nil {
+			return nil, false, err
+		}
+		defer func() { _ = conn.Close() }()
+		_ = conn.SetDeadline(time.Now().Add(c03sUDPTimeout))
+		resp, err = cl.ExchangeConn(conn, req, ri)
+		var ne net.Error
+		if err != nil && errorsAs(err, &ne) && ne.Timeout() {
+			return nil, true, nil
+		}
+
+		return resp, false, err
 	}
 }
 
@@ -255,9 +468,9 @@ func errorsAs(err error, target *net.Error) bool {
 }
 
 type c03sReq struct {
-	proto, sni, qname string
-	ip                netip.Addr
-	qtype             uint16
+	proto, sni, path, qname string
+	ip                      netip.Addr
+	qtype                   uint16
 }
 
 func c03sRun(f []string) []string {
@@ -272,19 +485,21 @@ func c03sRun(f []string) []string {
 	i++
 	reqs := make([]c03sReq, k)
 	for j := range reqs {
-		g := f[i : i+8]
-		i += 8
+		g := f[i : i+9]
+		i += 9
 		reqs[j] = c03sReq{
 			proto: g[0], ip: c03ParseIP(g[1], g[2], g[3]), sni: vutil.Unhex(g[4]),
-			qname: vutil.Unhex(g[6]), qtype: uint16(vutil.Atoi(g[7])),
+			qname: vutil.Unhex(g[6]), qtype: uint16(vutil.Atoi(g[7])), path: vutil.Unhex(g[8]),
 		}
 	}
 
-	s, cnt, err := c03sStart(srvName, strict, allowed, blocked, hosts)
+	s, hs, cnt, err := c03sStart(srvName, strict, allowed, blocked, hosts)
 	if err != nil {
 		return []string{"starterr", vutil.Hex(err.Error())}
 	}
+	c03sHTTPPort = uint16(hs.Listener.Addr().(*net.TCPAddr).Port)
 	defer func() {
+		hs.Close()
 		_ = s.Stop()
 		s.Close()
 	}()
@@ -296,7 +511,7 @@ func c03sRun(f []string) []string {
 		go func() {
 			defer wg.Done()
 			r := reqs[j]
-			replies[j] = c03sQuery(s, r.proto, r.ip, r.sni, r.qname, r.qtype)
+			replies[j] = c03sQuery(s, r.proto, r.ip, r.sni, r.path, r.qname, r.qtype)
 		}()
 	}
 	wg.Wait()
@@ -411,7 +626,7 @@ func c03sGen(r *rand.Rand, emit vutil.Emit) {
 		f = append(f, vutil.Itoa(k))
 		for j := 0; j < k; j++ {
 			ip := vutil.Pick(r, local)
-			proto := []string{"udp", "udp", "tcp", "tls"}[r.IntN(4)]
+			proto := []string{"udp", "udp", "tcp", "tls", "https", "quic", "dnscrypt", "https"}[r.IntN(8)]
 			sni := c03sSrvName
 			switch r.IntN(6) {
 			case 0, 1, 2:
@@ -422,11 +637,27 @@ func c03sGen(r *rand.Rand, emit vutil.Emit) {
 			case 4:
 				sni = "other.example.net"
 			}
+			path := ""
+			if proto == "https" {
+				// the ClientID of a DoH request is in its path (first) or its server name
+				switch r.IntN(5) {
+				case 0:
+					path = "/dns-query"
+				case 1:
+					path, sni = "/dns-query/"+vutil.Pick(r, ids), c03sSrvName
+				case 2:
+					path = "/dns-query/" + vutil.Pick(r, ids)
+				case 3:
+					path = "/dns-query/-a"
+				default:
+					path = "/dns-query/" + vutil.Pick(r, ids) + "/"
+				}
+			}
 			qname := fmt.Sprintf("q%d-%d.%s", b, j, vutil.Pick(r, bases))
 			qtype := []uint16{dns.TypeA, dns.TypeA, dns.TypeAAAA}[r.IntN(3)]
 			f = append(f, proto, map[bool]string{true: "4", false: "6"}[ip.Is4()], hex.EncodeToString(ip.AsSlice()),
 				vutil.Hex(ip.Zone()), vutil.Hex(sni), vutil.B(oracle.blocked(qname, qtype)), vutil.Hex(qname),
-				vutil.Itoa(int(qtype)))
+				vutil.Itoa(int(qtype)), vutil.Hex(path))
 		}
 		emit(f...)
 	}
